@@ -88,12 +88,39 @@ func openLastURL(r Rnd, body []*Dir) (hoisted []*Dir) {
 	return hoisted
 }
 
+// openFirst takes the last one or two children away from a directive (which must then use the implicit context form) and
+// returns them: they become the beginning of the macro body that is pasted right after that directive.
+func openFirst(r Rnd, p *Dir) []*Dir {
+	switch p.Kw {
+	case "MACRO", "PASTE", "INCLUDE", "Description":
+		return nil
+	}
+	if len(p.Children) == 0 || p.Explicit == "yes" {
+		return nil
+	}
+	k := 1
+	if len(p.Children) >= 2 && chance(r, 1, 2) {
+		k = 2
+	}
+	cut := len(p.Children) - k
+	for _, c := range p.Children[cut:] {
+		if !inMacroOK(c) || c.Kw == "PASTE" || c.Kw == "INCLUDE" {
+			return nil
+		}
+	}
+	moved := append([]*Dir(nil), p.Children[cut:]...)
+	p.Children = append([]*Dir(nil), p.Children[:cut]...)
+	p.Explicit = "no"
+	return moved
+}
+
 // SplitRagged is Split; with ragged set, about a third of the pieces end with a directive whose remaining children stay
 // in the including file (a cut at a directive boundary that is not a sub-tree boundary).
 func SplitRagged(r Rnd, tree []*Dir, maxCuts, maxDepth int, ragged bool) (out []*Dir, cuts, nested, raggedCuts int) {
 	out = CloneTree(tree)
 	nextID := 100000
 	fileNo := 0
+	usedNames := map[string]bool{}
 	var splitList func(list *[]*Dir, isRoot bool, dir string, depth int)
 	splitList = func(list *[]*Dir, isRoot bool, dir string, depth int) {
 		// top-down: first (maybe) cut a run at this level, then descend – into the new file with its own directory,
@@ -109,9 +136,18 @@ func SplitRagged(r Rnd, tree []*Dir, maxCuts, maxDepth int, ragged bool) (out []
 			fileNo++
 			sub := dir
 			if chance(r, 1, 3) {
-				sub = path.Join(dir, fmt.Sprintf("d%d", fileNo))
+				// directory and file names come from small pools so that different includers write the same relative
+				// name for different files ("a/part.jst" from the root and from inside a/)
+				sub = path.Join(dir, pick(r, []string{"a", "b", fmt.Sprintf("d%d", fileNo)}))
 			}
-			name := path.Join(sub, fmt.Sprintf("inc%d.jst", fileNo))
+			base := fmt.Sprintf("inc%d.jst", fileNo)
+			if chance(r, 1, 2) {
+				if cand := pick(r, []string{"part.jst", "x.jst"}); !usedNames[path.Join(sub, cand)] {
+					base = cand
+				}
+			}
+			name := path.Join(sub, base)
+			usedNames[name] = true
 			rel := strings.TrimPrefix(strings.TrimPrefix(name, dir), "/")
 			nextID++
 			inc := &Dir{ID: nextID, Kw: "INCLUDE", Params: []Param{{Text: rel}}, IncludeFile: name, IncludeDirs: piece}
@@ -186,6 +222,8 @@ func Macroize(r Rnd, tree []*Dir, maxMacros int) (out []*Dir, macros, depthMax i
 // MacroizeRagged is Macroize; with ragged set, about a third of the macro bodies end with a directive whose remaining
 // children are written after the PASTE (PASTE is textual: the context the body leaves open adopts them).
 func MacroizeRagged(r Rnd, tree []*Dir, maxMacros int, ragged bool) (out []*Dir, macros, depthMax, raggedMacros int) {
+	leading := 0
+	defer func() { raggedMacros += leading }()
 	out = CloneTree(tree)
 	nextID := 200000
 	var defs []*Dir
@@ -234,6 +272,14 @@ func MacroizeRagged(r Rnd, tree []*Dir, maxMacros int, ragged bool) (out []*Dir,
 		// URL-level Tags/Path must stay before the methods of their URL: a run taken from an URL never starts at a method
 		// while Tags/Path siblings remain after it – guaranteed because runs are contiguous and those come first.
 		body := append([]*Dir(nil), (*list)[from:to]...)
+		if ragged && from > lo && chance(r, 1, 3) {
+			// the body begins with the last children of the directive written before the run: PASTE is textual, the
+			// context that directive leaves open adopts them when the macro is expanded
+			if moved := openFirst(r, (*list)[from-1]); moved != nil {
+				body = append(moved, body...)
+				leading++
+			}
+		}
 		macros++
 		name := fmt.Sprintf("@m%d", macros)
 		nextID += 2
